@@ -368,6 +368,7 @@ def event_body(ev, name, calls):
                 else:
                     r = getattr(ev, m)()
                 S.trace.append(dict(ev="ret", t=name, kind=m, res=bool(r)))
+                S.ops.append((name, "ret", "True" if (r and m in ("wait", "is_set")) else "False"))
             except BaseException as ex:
                 S.trace.append(dict(ev="exc", t=name, type=type(ex).__name__, what=str(ex)[:80]))
                 return
@@ -417,7 +418,8 @@ def explore_event(cfg, seed):
     except Drift as ex:
         S.trace.append(dict(ev="drift", what=str(ex)))
         S.trace.append(dict(ev="end", blocked=["?"], budget_ok=False))
-    return dict(trace=S.trace, sched=sched, final={k: v.v for k, v in sems.items()})
+    return dict(trace=S.trace, sched=sched, final={k: v.v for k, v in sems.items()}, ops=[list(o) for o in S.ops],
+                epilogue=[["set", None], ["wait", None], ["is_set", None], ["clear", None], ["wait", 0.01], ["is_set", None]])
 
 
 # ---------------------------------------------------------------------------------------------------------
